@@ -63,6 +63,19 @@ PROFILES = {
         "wl_kwargs": 0.3,
         "split_bias": 0.35,
     },
+    # lock-step with transfers of several hundred partitions per pair
+    "lockstep_deep": {
+        "ops": {"transfer": 8, "aspirate": 1, "comment": 1},
+        "aims": {"ok": 8, "zero": 1, "beyond": 1},
+        "fault_rate": 0.1,
+        "comps": 0.3,
+        "stop_on_error": False,
+        "wl_kwargs": 0.3,
+        "split_bias": 0.8,
+        "split_factors": [300, 300, 420],
+        "uniform": 0.7,
+        "fill_to_limit": True,
+    },
     # history (C11)
     "history": {
         "ops": {"add": 2, "remove": 2, "aspirate": 2, "dispense": 2, "transfer": 8, "distribute": 2, "evo_aspirate": 1, "evo_dispense": 1},
@@ -312,8 +325,10 @@ class Engine:
                 if rng.random() > split_bias:
                     lim = min(lim, self.wlmax)
                 else:
-                    lim = min(lim, self.wlmax * rng.choice([1.5, 2, 3, 5, 12, 30]))
+                    lim = min(lim, self.wlmax * rng.choice(self.profile.get("split_factors", [1.5, 2, 3, 5, 12, 30])))
                 v = self._class_value(lim * rng.choice([0.5, 0.9, 1.0])) if lim > 0 else 0.0
+                if self.profile.get("fill_to_limit") and lim > 1:
+                    v = float(math.floor(lim * rng.choice([0.9, 1.0])))
                 if v > self.wlmax and rng.random() < 0.15:
                     # a hair above a whole number of steps (the last partition is tiny but real)
                     k_ = max(1, int(v // self.wlmax))
@@ -333,6 +348,8 @@ class Engine:
             if math.isfinite(v) and v > 0:
                 rem[sidx] = rem.get(sidx, 0.0) + v
                 add[didx] = add.get(didx, 0.0) + v
+        if self.profile.get("uniform") and fault is None and all(a_ == "ok" for a_ in aims) and rng.random() < self.profile["uniform"]:
+            vols = [min(vols)] * len(vols)  # the same volume for every pair (fits wherever the individual ones did)
         s_ids, d_ids = [w for w, _ in sw], [w for w, _ in dw]
         if mode == "one-many" and rng.random() < 0.6:
             s_arg, s_shp = s_ids[0], "scalar"
